@@ -34,6 +34,9 @@ Children(tree, p) == {i \in DOMAIN tree : tree[i].parent = p}
 SortedChildren(tree, p) ==
   SortSeq(SetToSeq(Children(tree, p)), LAMBDA a, b : LexLess(tree[a].name, tree[b].name))
 
+\* optional node attribute: the directory's permissions do not let find list it
+Unreadable(nd) == "noread" \in DOMAIN nd /\ nd.noread
+
 Follows(cfg, depth) == cfg.mode = "L" \/ (cfg.mode = "H" /\ depth = 0)
 
 \* The node whose status record an entry for `node` at `depth` carries.
@@ -59,11 +62,14 @@ Walk(tree, cfg, path, node, depth, anc) ==
         self == [path |-> path, depth |-> depth, node |-> node, eff |-> eff, dir |-> isDir]
         prunedHere == inRange /\ isDir /\ ~cfg.depth /\ path \in cfg.prune
         descend == isDir /\ depth < cfg.max /\ ~prunedHere
-        kids == IF descend THEN SortedChildren(tree, eff) ELSE <<>>
+        \* a directory that cannot be read is itself an entry, but listing it fails: a diagnostic (one error),
+        \* nothing beneath it, and the walk goes on with its siblings
+        blocked == descend /\ Unreadable(tree[eff])
+        kids == IF descend /\ ~blocked THEN SortedChildren(tree, eff) ELSE <<>>
         sub == [k \in DOMAIN kids |->
                   Walk(tree, cfg, ChildPath(path, tree[kids[k]].name), kids[k], depth + 1, anc \cup {eff})]
         below == Flatten([k \in DOMAIN kids |-> sub[k].ents])
-        errs == SumSeq([k \in DOMAIN kids |-> sub[k].errs])
+        errs == SumSeq([k \in DOMAIN kids |-> sub[k].errs]) + (IF blocked THEN 1 ELSE 0)
         me == IF inRange THEN <<self>> ELSE <<>>
     IN [ents |-> IF cfg.depth THEN below \o me ELSE me \o below, errs |-> errs]
 
